@@ -44,6 +44,29 @@ def _patch_mesh_cache():
             pass
 
 
+def state_summary(run):
+    """[(param index, block name, has non-empty local Kronecker state, number of factor matrices)] for one rank's optimizer."""
+    owned = []
+    for pi, p in enumerate(run.params):
+        for bname, bs in run.opt.state[p].items():
+            if not isinstance(bs, dict):
+                continue
+            sh = bs.get("shampoo")
+            mats = list(getattr(sh, "factor_matrices", ())) if sh is not None else []
+            nonempty = [type(t).__name__ == "DTensor" and t.to_local().numel() > 0 for t in mats]
+            owned.append((pi, bname, any(nonempty), len(mats)))
+    return owned
+
+
+def prove_state_placement(groups_of_ranks, state_owner, info):
+    """Within every distribution group each block's optimizer state lives on exactly one rank (C14's placement clause)."""
+    for members in groups_of_ranks:
+        keys = sorted({(pi, bname) for r in members for (pi, bname, ne, nm) in state_owner[r] if nm > 0})
+        for pi, bname in keys:
+            owners = [r for r in members if any(x[0] == pi and x[1] == bname and x[2] for x in state_owner[r])]
+            symx.prove(f"state of param {pi} {bname} lives on exactly one rank of group {list(members)}", len(owners) == 1, info)
+
+
 def make(cfg):
     T = cfg["T"]
     tier = cfg.get("tier", "quick")
